@@ -36,6 +36,20 @@ type aliaser interface {
 	Alias(string) string
 }
 
+// absoluteAliaser is an optional extension of aliaser, see imports.AliasAbsolute.
+type absoluteAliaser interface {
+	AliasAbsolute(string) string
+}
+
+// aliasAbsolute returns an alias for an import that is required by the template itself,
+// aliases defined by the user must not be applied to such imports.
+func aliasAbsolute(a aliaser, import_ string) string {
+	if aa, ok := a.(absoluteAliaser); ok {
+		return aa.AliasAbsolute(import_)
+	}
+	return a.Alias(import_)
+}
+
 type importProvider interface {
 	Imports() []imports.Import
 }
@@ -124,22 +138,22 @@ func createDefaultFunctions(a aliaser, o output.Output) template.FuncMap {
 			return exporter.Export(input)
 		},
 		"importAlias": func(i string) string {
-			return a.Alias(i)
+			return aliasAbsolute(a, i)
 		},
 		"containerAlias": func() string {
-			return a.Alias(consts.GontainerHelperPath + "/container")
+			return aliasAbsolute(a, consts.GontainerHelperPath+"/container")
 		},
 		"groupErrorAlias": func() string {
-			return a.Alias(consts.GontainerHelperPath + "/grouperror")
+			return aliasAbsolute(a, consts.GontainerHelperPath+"/grouperror")
 		},
 		"exporterAlias": func() string {
-			return a.Alias(consts.GontainerHelperPath + "/exporter")
+			return aliasAbsolute(a, consts.GontainerHelperPath+"/exporter")
 		},
 		"callerAlias": func() string {
-			return a.Alias(consts.GontainerHelperPath + "/caller")
+			return aliasAbsolute(a, consts.GontainerHelperPath+"/caller")
 		},
 		"copierAlias": func() string {
-			return a.Alias(consts.GontainerHelperPath + "/copier")
+			return aliasAbsolute(a, consts.GontainerHelperPath+"/copier")
 		},
 		"isTagged": func(id string, tag string) bool {
 			_, ok := tagsServices[tag][id]
